@@ -185,7 +185,7 @@ PROPS = {
                 "every step and the energy is re-evaluated after every refused call. Distinct = (ansatz, molecule, mapping, ordering, "
                 "step kind, operator) tuples; non-trivial = run with >=3 steps of >=2 kinds or >=1 refused call.",
         "probes": ["C08.energy_after_refused_call", "C08.symmetry_expectation_checked", "C08.deflation_overlap_checked",
-                   "C08.hamiltonian_object_modified_in_place_between_evaluations"],
+                   "C08.hamiltonian_object_modified_in_place_between_evaluations", "C08.helper_operator_modified_in_place_by_caller"],
         "components_real": ["VQESolver (build, energy_estimation, operator_expectation, get_rdm, simulate), all built-in ansaetze, Backend / "
                             "CirqSimulator expectation routes, fermion_to_qubit_mapping + SecondQuantizedMolecule + PySCF (data producers)"],
         "components_stub": ["the classical optimiser is replaced by a 1-3 point evaluator through the public 'optimizer' option"],
